@@ -1,18 +1,59 @@
 from ..runner import Harness, Spec
+from ..translate import go_translator
+
+# all harness files are injected together (they share helpers); each Harness runs one test of them
+FILES = {
+    "zz_verif_c07_ptrslice_test.go": "c07/ptrslice_test.go",
+    "zz_verif_c07_tree_test.go": "c07/tree_test.go",
+    "zz_verif_c07_witness_test.go": "c07/witness_test.go",
+    "zz_verif_c07_metric_test.go": "c07/metric_test.go",
+}
+
+
+def H(name, test, driver, n):
+    return Harness(name=name, module="pdata", pkg="pdata/plog", files=FILES, test=test, driver=driver, n=n)
+
 
 SPEC = Spec(
     pid="C07",
     lean_modules=["OtelVerif.Props.C07"],
+    translators=[go_translator("pdatacensus", "OtelVerif/Gen/PdataCensus.lean")],
     harnesses=[
-        Harness(name="ptrslice", module="pdata", pkg="pdata/plog",
-                files={"zz_verif_c07_ptrslice_test.go": "c07/ptrslice_test.go"},
-                test="TestVerifC07PtrSlice", driver="drv_c07", n={"quick": 4000, "thorough": 40000}),
+        H("witness", "TestVerifC07Witness", None, {"quick": 7, "thorough": 7}),
+        H("ptrslice", "TestVerifC07PtrSlice", "drv_c07", {"quick": 20000, "thorough": 100000}),
+        Harness(name="map", module="pdata", pkg="pdata/pcommon", files={"zz_verif_c07_map_test.go": "c07/map_test.go"},
+                test="TestVerifC07Map", driver="drv_c07", n={"quick": 20000, "thorough": 150000}),
+        H("tree", "TestVerifC07Tree", None, {"quick": 12000, "thorough": 120000}),
+        H("metric", "TestVerifC07Metric", None, {"quick": 12000, "thorough": 150000}),
     ],
-    rule="ptrslice: random programs (1-40 ops: append, set, remove-if by index pattern, ensure-capacity, sort, copy-to, "
-         "move-and-append-to, mark-read-only) over 2-4 plog.LogRecordSlice handles; non-trivial = contains a copy/move whose "
-         "destination had cap > len or had been filtered / re-sliced shorter before. distinct = distinct op sequences.",
+    rule="witness: 7 scripted corpus cases (the reproduced defects and the seeded-change targets), each with a direct oracle. "
+         "ptrslice (exact differential against the Lean heap model + Lean oracle on the implementation's observations): corpus of 4 "
+         "scripted programs, then random programs of 1-40 ops (append, set, remove-if by index pattern, ensure-capacity, sort, copy-to, "
+         "move-and-append-to, mark-read-only) over 2-4 plog.LogRecordSlice handles, content and cap of every handle observed after every "
+         "op; thorough adds all 14^4 programs over a 14-op alphabet; non-trivial = contains a copy/move whose destination had cap > len "
+         "or had been filtered / re-sliced shorter before. "
+         "tree (plain-Go reference model, no Lean model): 5-45 random public ops at random positions of 2-3 randomly filled plog.Logs "
+         "(copy-to / move-to / move-and-append-to between disjoint positions of the same kind at any level: resource/scope/record slices "
+         "and messages, attribute maps, values, value slices; remove, remove-if, ensure-capacity, append, Set*/Put*/FromRaw, mark-read-only), "
+         "whole payloads compared with reference trees after every op; non-trivial = contains a copy or move. "
+         "metric: pmetric messages with optional and one-of fields: CopyTo at metric / data-point level into an arbitrarily pre-filled "
+         "destination, payload encodings compared, then both sides scrambled in turn (independence). distinct = distinct op sequences.",
     trusted_base=[
         "Lean 4.33.0 kernel; axioms per theorem listed under axioms_per_theorem (subset of propext, Classical.choice, Quot.sound)",
+        "hand-written heap model of the generated pointer-slice template (slice.go.tmpl, sliceOfPtrs) for elements with one scalar field, "
+        "tied by exact differential (content + capacity of every handle after every op) on plog.LogRecordSlice on every run",
+        "representation: a slice header owns its backing array, split at len into live pointers and an arbitrary tail; nil slice = cap 0",
+        "Go's append growth policy is an input (capacity observed after the call)",
+        "translator translators/cmd/pdatacensus (go/ast): classifies exported value-receiver methods of pdata wrapper types by a syntactic "
+        "rule (writes through an expression containing `orig` / mutator name pattern / first statement is AssertMutable)",
+        "nested elements, attribute maps, values, value slices, primitive slices, message structs with optional/one-of fields, pmetric: NOT "
+        "modelled in Lean; checked by Go reference-model oracles only (tree, metric, witness harnesses); ptrace/pprofile share the templates "
+        "and are not exercised separately",
+        "the driver re-tabulates the heap function after every step (extensionally equal on allocated ids)",
     ],
-    assumptions=[],
+    assumptions=[
+        "single goroutine",
+        "copy-to / move-to / move-and-append-to are between distinct values (neither contains the other)",
+        "programs reach sub-values from named roots at the time of the call (no handle to an element is kept across a removal of that element)",
+    ],
 )
